@@ -43,128 +43,155 @@ def dval(p, needle, names=None):
     return None
 
 
+def _peer(f, E, state, origin=None, resync="resync0"):
+    SS = "engine::state::SyncState"
+    OR = "engine::state::Origin"
+    if state == "Idle":
+        st = E.variant(f, SS, "Idle")
+    else:
+        og = E.variant(f, OR, "Accept") if origin == "Accept" else E.variant(f, OR, "Connect", E.Tok("reason0"))
+        st = E.variant(f, SS, "Running", start=E.Tok("start0"), origin=og)
+    return E.struct(f, "engine::state::PeerState", state=st, resync_requested=resync if not isinstance(resync, str) else E.Tok(resync), last_sync=E.Tok("last0"))
+
+
+def _state_of(f, E, peer):
+    st = E.field(f, peer, "engine::state::PeerState", "state")
+    d = E.describe(st, f)
+    return d.split("(")[0], d
+
+
 def r1(ctx):
     f = ctx.facts
-    SS = variant_names(f, "engine::state::SyncState")      # Idle, Running
-    OR = variant_names(f, "engine::state::Origin")         # Connect, Accept
+    from . import feval as E
     SR = variant_names(f, "engine::state::SyncReason")
+    PSP = "engine::state::PeerState"
+    for nm in ("set_sync_running", "start_connect", "accept_request", "finish"):
+        ctx.touch(f.body(PS + nm))
+    # ---- start_connect over {Idle, Running} x reasons
+    b = f.body(PS + "start_connect")
+    rows = {}
+    for st in ("Idle", "Running"):
+        for reason in SR:
+            heap = {"self": _peer(f, E, st, "Accept", resync=E.Int(0))}
+            try:
+                ret, h, ev = E.run(f, b.path, [E.href("self"), E.variant(f, "engine::state::SyncReason", reason)], heap)
+                after = h["self"]
+                sname, sfull = _state_of(f, E, after)
+                rr = E.describe(E.field(f, after, PSP, "resync_requested"), f)
+                rows[(st, reason)] = (E.describe(ret, f), sname, ("Connect(%s)" % reason) in sfull if sname == "Running" and st == "Idle" else None, rr)
+            except E.Unsupported as e:
+                rows[(st, reason)] = ("UNSUPPORTED-FORM: %s" % e,)
+    want = {}
+    for reason in SR:
+        want[("Idle", reason)] = ("1", "Running", True, "0")
+        want[("Running", reason)] = ("0", "Running", None, "1" if reason == "SyncReport" else "0")
+    ctx.check(rows == want, "C11.R1", b.path, "transition-table",
+              "(state, reason) -> (returns, state', origin=Connect(reason), resync'): %s; spec: Idle -> dial(true)+Running{Connect(reason)}, resync cleared; Running -> refuse(false), state kept, resync queued iff reason=SyncReport" % _fmt(rows), b.sp)
+    # ---- accept_request over {Idle, Running{Accept}, Running{Connect}} x cmp(me,node)
+    b = f.body(PS + "accept_request")
+    rows = {}
+    for st, og in (("Idle", None), ("Running", "Accept"), ("Running", "Connect")):
+        for order in ("Less", "Greater"):
+            def oracle(kind, a, b2, site, order=order):
+                if kind in ("cmp", "eq") and "me" in str(a) + str(b2) and "node" in str(a) + str(b2):
+                    o = -1 if order == "Less" else 1
+                    if "node" in str(a) and "me" in str(b2):
+                        o = -o
+                    return (False if kind == "eq" else o)
+                return None
+            heap = {"self": _peer(f, E, st, og, resync=E.Int(1)), "me": E.Tok("me"), "node": E.Tok("node")}
+            try:
+                ret, h, ev = E.run(f, b.path, [E.href("self"), E.href("me"), E.href("node")], heap, oracle)
+                sname, sfull = _state_of(f, E, h["self"])
+                rr = E.describe(E.field(f, h["self"], PSP, "resync_requested"), f)
+                rows[(st, og, order)] = (E.describe(ret, f), sfull if "Accept" in sfull or sname == "Idle" else sname + "{Connect}", rr)
+            except E.Unsupported as e:
+                rows[(st, og, order)] = ("UNSUPPORTED-FORM: %s" % e,)
+    ok = True
+    det = []
+    for order in ("Less", "Greater"):
+        r = rows.get(("Idle", None, order))
+        ok = ok and r is not None and r[0] == "Allow" and "Running" in r[1] and "Accept" in r[1] and r[2] == "0"
+        r = rows.get(("Running", "Accept", order))
+        ok = ok and r is not None and r[0] == "Reject(AlreadySyncing)" and r[2] == "1"
+    rl, rg = rows.get(("Running", "Connect", "Less")), rows.get(("Running", "Connect", "Greater"))
+    both = {rl[0] if rl else None, rg[0] if rg else None}
+    tie_ok = both == {"Allow", "Reject(AlreadySyncing)"}
+    for r in (rl, rg):
+        if r and r[0] == "Allow":
+            tie_ok = tie_ok and "Accept" in r[1] and r[2] == "0"
+        if r and r[0].startswith("Reject"):
+            tie_ok = tie_ok and "Connect" in r[1] and r[2] == "1"
+    ctx.check(ok, "C11.R1", b.path, "transition-table",
+              "(state, origin, cmp(me,node)) -> (outcome, state', resync'): %s; spec: Idle -> Allow + Running{Accept}; Running{Accept} -> Reject(AlreadySyncing), nothing changed" % _fmt(rows), b.sp)
+    ctx.check(tie_ok, "C11.R1", b.path, "simultaneous-dial-tie-break-antisymmetric",
+              "while dialing: outcome(cmp(me,node)=Less) = %s, outcome(Greater) = %s; spec: exactly one of the two nodes of a simultaneous dial allows the request (the outcomes differ), the allowing side switches to Running{Accept}, the other keeps its dial" % (rl, rg), b.sp)
+    # ---- finish over {Idle, Running}
+    b = f.body(PS + "finish")
+    rows = {}
+    OA = E.variant(f, "engine::state::Origin", "Accept")
+    OC = E.variant(f, "engine::state::Origin", "Connect", E.Tok("reason0"))
+    for st, og in (("Idle", None), ("Running", "Accept"), ("Running", "Connect")):
+        for rr0 in (0, 1):
+            for reported in ("same", "other"):
+                peer = _peer(f, E, st, og, resync=E.Int(rr0))
+                same = OC if og == "Connect" else OA
+                other = OA if og == "Connect" else OC
+                heap = {"self": peer, "origin": same if reported == "same" else other}
+                try:
+                    ret, h, ev = E.run(f, b.path, [E.href("self"), E.href("origin"), E.Tok("result0")], heap)
+                    sname, sfull = _state_of(f, E, h["self"])
+                    rr = E.describe(E.field(f, h["self"], PSP, "resync_requested"), f)
+                    rows[(st, og, rr0, reported)] = (E.describe(ret, f), sname, rr)
+                except E.Unsupported as e:
+                    rows[(st, og, rr0, reported)] = ("UNSUPPORTED-FORM: %s" % e,)
+    ok = True
+    for (st, og, rr0, reported), val in rows.items():
+        if len(val) != 3:
+            ok = False
+            continue
+        ret, sname, rr = val
+        ok = ok and sname == "Idle" and rr == str(rr0)
+        if st == "Idle":
+            ok = ok and ret == "None"
+        else:
+            ok = ok and ret == "Some((start0,%d))" % rr0
+    ctx.check(ok, "C11.R1", b.path, "transition-table",
+              "(state, origin, resync, reported origin) -> (returns, state', resync'): %s; spec: state := Idle on every path (also when the reported origin differs from the recorded one), the resync flag is reported (Some((start, flag)) iff a session was running) and left untouched" % _fmt(rows), b.sp)
     # ---- set_sync_running
     b = f.body(PS + "set_sync_running")
-    ctx.touch(b)
-    ps = P.explore(b)
-    ok = len(ps) == 1
-    w = dict(P.writes(ps[0])) if ok else {}
-    ctx.check(ok and w.get("state", "").startswith("Running") and w.get("resync_requested") == "0", "C11.R1", b.path, "sets-Running-and-clears-resync",
-              "writes %s" % w, b.sp)
-    # ---- start_connect
-    b = f.body(PS + "start_connect")
-    ctx.touch(b)
-    rows = {}
-    for p in P.explore(b):
-        st = dval(p, "self.state", SS)
-        rs = dval(p, "arg:reason", SR)
-        w = P.writes(p)
-        rows[(st, rs)] = (P.short(p.ret), tuple(w), tuple(c for c in P.calls(p) if c in ("set_sync_running", "finish")))
-    sr_idx = SR.index("SyncReport")
-    want = {
-        ("Idle", None): ("1", (), ("set_sync_running",)),
-        ("Running", "SyncReport"): ("0", (("resync_requested", "1"),), ()),
-        ("Running", "otherwise"): ("0", (), ()),
-    }
-    ctx.check(rows == want, "C11.R1", b.path, "transition-table",
-              "(state,reason) -> (returns, writes, calls): %s; spec: Idle -> dial(true)+Running; Running -> refuse(false), resync queued iff reason=SyncReport" % _fmt(rows), b.sp)
-    # the origin handed to set_sync_running is Connect(reason)
-    bi, t = one_call(b, r"set_sync_running$")
-    o = trace(b, t["a"][1])
-    okc = all(x.kind == "agg" and x.data[0][2] == "Connect" for x in o) and bool(o)
-    if okc:
-        inner = {origin_summary(y) for x in o for y in trace(b, x.data[1][0])}
-        okc = inner == {"arg:reason"}
-    ctx.check(okc, "C11.R1", b.path, "origin-is-Connect(reason)", "set_sync_running(Origin::Connect(reason))", t["sp"])
-    # ---- accept_request
-    b = f.body(PS + "accept_request")
-    ctx.touch(b)
-    rows = {}
-    SD = variant_names(f, "engine::state::SyncDirection")
-    for p in P.explore(b):
-        st = dval(p, "self.state)", SS) if dval(p, "self.state)", SS) is not None else dval(p, "arg:self.state", SS)
-        og = dval(p, "state.origin", OR)
-        sd = dval(p, "expected_sync_direction", SD)
-        rows[(st, og, sd)] = (P.short(p.ret), tuple(c for c in P.calls(p) if c in ("set_sync_running",)), tuple(P.writes(p)))
-    want = {
-        ("Idle", None, None): ("Allow", ("set_sync_running",), ()),
-        ("Running", "Accept", None): ("Reject(AlreadySyncing)", (), ()),
-        ("Running", "Connect", "Accept"): ("Allow", ("set_sync_running",), ()),
-        ("Running", "Connect", "Connect"): ("Reject(AlreadySyncing)", (), ()),
-    }
-    ctx.check(rows == want, "C11.R1", b.path, "transition-table",
-              "(state,origin,tie-break) -> (outcome, calls, writes): %s; spec: Idle->Allow; Running{Accept}->AlreadySyncing; Running{Connect}->decided by the id tie-break" % _fmt(rows), b.sp)
-    bi, t = one_call(b, r"set_sync_running$") if len(find_calls(b, r"set_sync_running$")) == 1 else (None, None)
-    if t:
-        o = trace(b, t["a"][1])
-        ctx.check(all(x.kind == "agg" and x.data[0][2] == "Accept" for x in o) and bool(o), "C11.R1", b.path, "origin-is-Accept", "set_sync_running(Origin::Accept)", t["sp"])
-    ed = [t2 for _, t2 in b.calls() if t2["f"].get("name") == "expected_sync_direction"]
-    okd = len(ed) == 1 and {origin_summary(x) for x in trace(b, ed[0]["a"][0])} == {"arg:me"} and {origin_summary(x) for x in trace(b, ed[0]["a"][1])} == {"arg:node"}
-    ctx.check(okd, "C11.R1", b.path, "tie-break(me,node)", "expected_sync_direction(me, node) in that order", b.sp)
-    # ---- tie break antisymmetry
+    heap = {"self": _peer(f, E, "Idle", resync=E.Int(1))}
+    try:
+        ret, h, ev = E.run(f, b.path, [E.href("self"), E.variant(f, "engine::state::Origin", "Accept")], heap)
+        sname, sfull = _state_of(f, E, h["self"])
+        rr = E.describe(E.field(f, h["self"], PSP, "resync_requested"), f)
+        okr = sname == "Running" and "Accept" in sfull and rr == "0"
+        det = "state' = %s, resync' = %s" % (sfull, rr)
+    except E.Unsupported as e:
+        okr, det = False, "UNSUPPORTED-FORM: %s" % e
+    ctx.check(okr, "C11.R1", b.path, "sets-Running-and-clears-resync", det, b.sp)
+    # ---- tie-break function itself
     e = f.body("engine::state::expected_sync_direction")
     ctx.touch(e)
-    tbl = None
-    for p in P.explore(e):
-        for k, v in p.decisions:
-            if k[0] == "cmp":
-                t0 = TRUTH[k[1]]
-                if "other" in k[2] and "self" in k[3]:
-                    t0 = flip(t0)
-                tbl = tbl or {}
-                for o in t0:
-                    if t0[o] == bool(v):
-                        tbl[o] = P.short(p.ret)
-    ok = bool(tbl) and len(tbl) == 3 and tbl["Less"] != tbl["Greater"] and set(tbl.values()) == {"Accept", "Connect"}
-    ctx.check(ok, "C11.R1", e.path, "antisymmetric-over-cmp(me,peer)",
-              "direction(cmp(me,peer)) = %s; for two simultaneous dials the two nodes see Less and Greater, so exactly one Accepts iff direction(Less) != direction(Greater)" % tbl, e.sp)
-    okb = all({origin_summary(x) for x in trace(e, c["a" if i == 0 else "b"])} == {"arg:self_node_id" if i == 0 else "arg:other_node_id"} for c in _cmps(e) for i in (0, 1)) if len(_cmps(e)) == 1 else False
-    ctx.check(okb, "C11.R1", e.path, "compares-the-two-ids", "one comparison of self id bytes with other id bytes", e.sp)
-    # ---- finish
-    b = f.body(PS + "finish")
-    ctx.touch(b)
-    n = 0
-    for p in P.explore(b):
-        n += 1
-        w = P.writes(p)
-        st = [v for fld, v in w if fld == "state"]
-        rr = [v for fld, v in w if fld == "resync_requested"]
-        ctx.check(st == ["Idle"] and not rr, "C11.R1", b.path, "path.state:=Idle,resync-untouched[%s]" % dval(p, "self.state", SS),
-                  "writes %s (finish frees the slot on every path and must not clear the resync flag before reporting it)" % w, b.sp)
-    # returned flag is self.resync_requested
-    m = [t2 for _, t2 in b.calls() if t2["f"].get("name") == "map" and t2["d"]["l"] == 0]
-    okf = False
-    if len(m) == 1:
-        cl = [d for d in m[0]["f"]["tdefs"] if d and "{closure" in d]
-        if cl:
-            cb = f.body(cl[0])
-            ctx.touch(cb)
-            for bi2, si2, s in cb.statements():
-                if s["k"] == "assign" and s["p"]["l"] == 0 and s["r"][0] == "agg" and s["r"][1][0] == "tuple" and len(s["r"][2]) == 2:
-                    fl = set()
-                    for x in trace(cb, s["r"][2][1]):
-                        idx = [pp[1] for pp in x.projs if pp[0] == "field"]
-                        up = mir.upvar_origins(f, cb, idx[0]) if (x.kind == "upvar" and idx) else None
-                        if up:
-                            for y in up[1]:
-                                fl.add((origin_summary(y),) + mir.field_path(y) + tuple(str(pp[2]) for pp in x.projs[1:] if pp[0] == "field"))
-                        else:
-                            fl.add(("?",))
-                    okf = fl == {("arg:self", "resync_requested")}
-    ctx.check(okf, "C11.R1", b.path, "returns-the-resync-flag", "Some((start, self.resync_requested)) when a session was running", b.sp)
-    # no callee of finish writes the flag either
-    for bi2, t2 in b.calls():
-        for pth in mir.callee_paths(t2):
-            if pth.startswith("engine::state::") and pth in f.bodies:
-                cb2 = f.bodies[pth]
-                for p in P.explore(cb2):
-                    bad = [x for x in P.writes(p) if x[0] == "resync_requested"]
-                    ctx.check(not bad, "C11.R1", b.path, "callee-%s-leaves-resync" % pth.split("::")[-1], "callee writes %s" % bad, t2["sp"])
+    tb = {}
+    for order in ("Less", "Equal", "Greater"):
+        def oracle(kind, a, b2, site, order=order):
+            if kind in ("cmp", "eq"):
+                o = {"Less": -1, "Equal": 0, "Greater": 1}[order]
+                if "other" in str(a) and "self" in str(b2):
+                    o = -o
+                return (o == 0) if kind == "eq" else o
+            return None
+        try:
+            ret, h, ev = E.run(f, e.path, [E.href("a"), E.href("b")], {"a": E.Tok("self_id"), "b": E.Tok("other_id")}, oracle)
+            tb[order] = E.describe(ret, f)
+        except E.Unsupported as ex:
+            tb[order] = "UNSUPPORTED-FORM: %s" % ex
+    ctx.check(tb.get("Less") != tb.get("Greater") and {tb.get("Less"), tb.get("Greater")} == {"Accept", "Connect"}, "C11.R1", e.path, "antisymmetric-over-cmp(me,peer)",
+              "direction(cmp(self,other)) = %s; the two nodes of a simultaneous dial see Less and Greater, so exactly one Accepts iff direction(Less) != direction(Greater)" % tb, e.sp)
+    ctx.check(len(_cmps(e)) == 1, "C11.R1", e.path, "compares-the-two-ids", "one comparison of the two ids", e.sp)
+    # no callee of finish writes the flag either (who-may-write below covers every body)
+    SS = variant_names(f, "engine::state::SyncState")
     # ---- who may write state / resync_requested
     allowed = {"state": {PS + "finish", PS + "set_sync_running"}, "resync_requested": {PS + "start_connect", PS + "set_sync_running"}}
     nw = 0
@@ -199,7 +226,7 @@ def r1(ctx):
     ctx.touch(b)
     gm = [t2 for _, t2 in b.calls() if t2["f"].get("name") == "get_mut"]
     ctx.check(len(gm) == 1 and {origin_summary(x) for x in trace(b, gm[0]["a"][1])} == {"arg:namespace"}, "C11.R1", b.path, "only-syncing-namespaces", "entry() is None unless the namespace is in the sync set (get_mut, not entry().or_default())", b.sp)
-    ctx.floor("C11.R1", 16)
+    ctx.floor("C11.R1", 14)
 
 
 def _cmps(b):
